@@ -214,6 +214,8 @@ func search(args map[string]string) {
 			{[]string{"setdata " + a1 + " 6b 07", "commit 1", "reopen"}, []string{"addft " + a1 + " 663a78 0"}, []string{"setnonce " + a1 + " 5"}, false},
 			{[]string{"setstate " + a1 + " " + k32 + " " + v(1), "commit 1", "reopen", "setstate " + a1 + " " + k32 + " " + v(2), "committed " + a1 + " " + k32},
 				[]string{"setstate " + a1 + " " + k32 + " " + v(3)}, nil, false},
+			{[]string{"setstate " + a1 + " " + k32 + " " + v(1), "commit 1", "reopen", "setstate " + a1 + " " + k32 + " " + v(2)},
+				[]string{"committed " + a1 + " " + k32}, nil, true},
 		}
 	}
 	for i := -len(directed); i < n; i++ {
@@ -317,6 +319,9 @@ func search(args map[string]string) {
 				if q == "empty" {
 					v.Key = "empty-query-after-revert"
 					v.Desc = "Empty(addr) answers differently after a reverted region: " + A.qs[j]
+				} else if f := strings.Fields(A.qs[j]); (q == "getdata" || q == "getstate") && len(f) == 3 && (mentions(prefix, "committed ", f[1]) || mentions(region, "committed ", f[1])) {
+					v.Key = "committed-read-clobbers-cache"
+					v.Desc = "GetCommittedState overwrote a cached dirty slot, so GetData answers differently after the revert: " + A.qs[j]
 				} else {
 					v.Key = "query-" + q + "-not-restored"
 					v.Desc = "accessor answers differently after the revert: " + A.qs[j]
